@@ -279,135 +279,6 @@ example :
     wdsRequest [("a", 1), ("b", 2)] ["a", "b", "c"] [("a", 1), ("b", 1), ("c", 1)]
       = { resources := [("b", 2)], removed := ["c"] } := by decide
 
-/-! ## Registration vs. publication: no snapshot may be missed -/
-
-/-- The connection is up to date: it serves from the newest published snapshot, or a push for it
-    is parked. -/
-def UpToDate (r : Reg) : Prop := r.lpc = r.global ∨ r.queued = some r.global
-
-/-- **The window on the pinned tree.**  `LastPushContext` is read, then a snapshot is published
-    (its push round does not see the unregistered connection), then the connection registers and
-    initialises: it serves an old snapshot and nothing is parked for it - stale until the next,
-    unrelated push. -/
-theorem init_window_run :
-    regRun false {} [.advance, .publish, .advance, .advance]
-      = { global := 1, phase := .initialized, lpc := 0, queued := none } := by
-  decide
-
-theorem init_window_witness :
-    ¬ UpToDate (regRun false {} [.advance, .publish, .advance, .advance]) := by
-  rw [init_window_run]
-  simp [UpToDate]
-
-/-- Invariant of the repaired registration (`reread = true`). -/
-def RegInv (r : Reg) : Prop :=
-  r.lpc ≤ r.global ∧
-  (∀ g, r.queued = some g → g = r.global ∧ (r.phase = .registered ∨ r.phase = .initialized)) ∧
-  ((r.phase = .registered ∨ r.phase = .initialized) → UpToDate r)
-
-theorem regInv_init : RegInv {} := by
-  refine ⟨Nat.le_refl _, ?_, ?_⟩
-  · intro g h; cases h
-  · intro h; rcases h with h | h <;> cases h
-
-theorem regInv_step (r : Reg) (e : RegStep) (h : RegInv r) : RegInv (regStep true r e) := by
-  obtain ⟨hle, hq, hup⟩ := h
-  cases e with
-  | publish =>
-    by_cases hp : r.phase = .registered ∨ r.phase = .initialized
-    · refine ⟨?_, ?_, ?_⟩
-      · simp only [regStep]; omega
-      · intro g hg
-        simp only [regStep, hp, if_true, Option.some.injEq] at hg
-        exact ⟨hg.symm, hp⟩
-      · intro _
-        right
-        simp [regStep, hp]
-    · refine ⟨?_, ?_, ?_⟩
-      · simp only [regStep]; omega
-      · intro g hg
-        simp only [regStep, hp, if_false] at hg
-        exact absurd (hq g hg).2 hp
-      · intro h'
-        simp only [regStep] at h'
-        exact absurd h' hp
-  | advance =>
-    cases hph : r.phase with
-    | start =>
-      refine ⟨?_, ?_, ?_⟩
-      · simp [regStep, hph]
-      · intro g hg
-        simp only [regStep, hph] at hg
-        have := (hq g hg).2
-        rw [hph] at this
-        rcases this with h1 | h1 <;> cases h1
-      · intro h'
-        simp only [regStep, hph] at h'
-        rcases h' with h1 | h1 <;> cases h1
-    | readSnapshot =>
-      refine ⟨?_, ?_, ?_⟩
-      · simp [regStep, hph]
-      · intro g hg
-        simp only [regStep, hph] at hg
-        have := (hq g hg).2
-        rw [hph] at this
-        rcases this with h1 | h1 <;> cases h1
-      · intro _
-        left
-        simp [regStep, hph]
-    | registered =>
-      have hup' := hup (Or.inl hph)
-      refine ⟨?_, ?_, ?_⟩
-      · simpa [regStep, hph] using hle
-      · intro g hg
-        have hg' : r.queued = some g := by simpa [regStep, hph] using hg
-        exact ⟨by simpa [regStep, hph] using (hq g hg').1, by simp [regStep, hph]⟩
-      · intro _
-        simpa [regStep, hph, UpToDate] using hup'
-    | initialized =>
-      simpa [regStep, hph, RegInv] using (⟨hle, hq, hup⟩ : RegInv r)
-  | handlePush =>
-    cases hph : r.phase with
-    | initialized =>
-      cases hqq : r.queued with
-      | none => simpa [regStep, hph, hqq, RegInv] using (⟨hle, hq, hup⟩ : RegInv r)
-      | some g =>
-        have hg := (hq g hqq).1
-        refine ⟨?_, ?_, ?_⟩
-        · simp only [regStep, hph, hqq]; omega
-        · intro g' hg'
-          simp [regStep, hph, hqq] at hg'
-        · intro _
-          left
-          simp only [regStep, hph, hqq]; omega
-    | start => simpa [regStep, hph, RegInv] using (⟨hle, hq, hup⟩ : RegInv r)
-    | readSnapshot => simpa [regStep, hph, RegInv] using (⟨hle, hq, hup⟩ : RegInv r)
-    | registered => simpa [regStep, hph, RegInv] using (⟨hle, hq, hup⟩ : RegInv r)
-
-/-- **No snapshot is missed (repaired code).**  For EVERY interleaving of snapshot publications
-    with the connection's initialisation steps and push handling, once the connection is registered
-    it either serves from the newest published snapshot or has a push parked for exactly that
-    snapshot; in particular after it handled its parked push it is current. -/
-theorem registration_no_miss (steps : List RegStep) :
-    let r := regRun true {} steps
-    (r.phase = .registered ∨ r.phase = .initialized) → UpToDate r := by
-  intro r
-  have : RegInv r := by
-    have h : ∀ (l : List RegStep) (x : Reg), RegInv x → RegInv (l.foldl (regStep true) x) := by
-      intro l
-      induction l with
-      | nil => intro x hx; exact hx
-      | cons e l ih => intro x hx; exact ih _ (regInv_step x e hx)
-    exact h steps {} regInv_init
-  exact this.2.2
-
-/-- Quiescent corollary: initialised and nothing parked ⇒ serving the newest snapshot. -/
-theorem registration_no_miss_quiescent (steps : List RegStep) :
-    let r := regRun true {} steps
-    r.phase = .initialized → r.queued = none → r.lpc = r.global := by
-  intro r hph hq
-  rcases registration_no_miss steps (Or.inr hph) with h | h
-  · exact h
-  · rw [hq] at h; cases h
+/-! Registration vs. publication and start-up: see `IstioModel.C05.RegTheorems`. -/
 
 end IstioModel.C05
